@@ -4,7 +4,7 @@ name=$1; prop=$2; tier=${3:-quick}
 wt=/tmp/mw-$name; vb=/tmp/vb-$name
 git -C /repo worktree remove --force $wt >/dev/null 2>&1; rm -rf $wt $vb
 git -C /repo worktree add --detach $wt HEAD >/dev/null 2>&1 || exit 9
-( cd $wt && git apply /verif/seeded/$name/patch.diff ) || { echo "PATCH DOES NOT APPLY"; exit 9; }
+( cd $wt && git apply ${PATCH:-/verif/seeded/$name/patch.diff} ) || { echo "PATCH DOES NOT APPLY"; exit 9; }
 mkdir -p $vb; cp -r /verif/.build/mir $vb/mir 2>/dev/null
 # run from a snapshot of the committed framework so that edits in /verif do not disturb the run
 snap=/tmp/vsnap-$name; rm -rf $snap; git -C /verif worktree add --detach $snap HEAD >/dev/null 2>&1
